@@ -47,15 +47,15 @@ func verifAssume(bool) {}
 //@ loop 0 invariant #l0range: 0 <= i && i <= nrecords && cursor == i*rowLength && dest == nil
 //@ loop 0 invariant #l0before: forall(k, 0, i, rowT(mem(src), rowAt(base(src), k, rowLength), rowLength) < abs(dr.Start))
 //@ loop 0 decreases nrecords - i
-//@ loop 1 invariant #l1range: 0 <= i && i <= nrecords && end == 0
+//@ loop 1 invariant #l1range: 0 <= i && i <= nrecords
 //@ loop 1 invariant #l1after: forall(k, i, nrecords, rowT(mem(dest), rowAt(base(dest), k, rowLength), rowLength) > abs(dr.End))
 //@ loop 1 decreases i
 // Exit assertions in the function's own row numbering. For a buffer sorted by time they say that the
 // result is exactly the rows t with Start <= t <= End (the sortedness step is not machine-checked).
-//@ exit #end: len(src)/rowLength == 0 || end == i*rowLength
+//@ exit #end: len(src)/rowLength == 0 || len(result) == i*rowLength
 //@ exit #beforeStart: len(src)/rowLength == 0 || forall(k, 0, phi(0, i), rowT(mem(src), rowAt(base(src), k, rowLength), rowLength) < abs(dr.Start))
 //@ exit #firstGeStart: (len(src)/rowLength != 0 && dest != nil) ==> rowT(mem(src), rowAt(base(src), phi(0, i), rowLength), rowLength) >= abs(dr.Start)
-//@ exit #resultStart: (len(src)/rowLength != 0 && result != nil) ==> (base(result) == base(src) + phi(0, i)*rowLength && len(result) == end && phi(0, i) + nrecords == len(src)/rowLength)
-//@ exit #afterEnd: len(src)/rowLength == 0 || forall(k, i, nrecords, rowT(mem(dest), rowAt(base(dest), k, rowLength), rowLength) > abs(dr.End))
-//@ exit #lastLeEnd: (len(src)/rowLength != 0 && end > 0) ==> rowT(mem(dest), rowAt(base(dest), i-1, rowLength), rowLength) <= abs(dr.End)
+//@ exit #resultStart: (len(src)/rowLength != 0 && result != nil) ==> (base(result) == base(src) + phi(0, i)*rowLength && phi(0, i) + nrecords == len(src)/rowLength)
+//@ exit #afterEnd: (len(src)/rowLength != 0 && result != nil) ==> forall(k, i, nrecords, rowT(mem(result), rowAt(base(result), k, rowLength), rowLength) > abs(dr.End))
+//@ exit #lastLeEnd: (len(src)/rowLength != 0 && len(result) > 0) ==> rowT(mem(result), rowAt(base(result), i-1, rowLength), rowLength) <= abs(dr.End)
 //@ ensures #resultInSrc: len(src)/(rowlen+8) == 0 || result == nil || (base(src) <= base(result) && base(result)+len(result) <= base(src)+len(src))
